@@ -32,8 +32,15 @@ class AbstractConstraint(object):
             self._testValue(value, idx)
 
         except error.ValueConstraintError:
+            try:
+                cause = '%r' % (sys.exc_info()[1],)
+
+            except ValueError:
+                # the offending value is too large to be printed
+                cause = sys.exc_info()[1].__class__.__name__
+
             raise error.ValueConstraintError(
-                '%s failed at: %r' % (self, sys.exc_info()[1])
+                '%s failed at: %s' % (self, cause)
             )
 
     def __repr__(self):
